@@ -222,7 +222,7 @@ def with_comments(rng, doc):
         elif b == 0x22:
             instr = True
         elif b in b',[{:\n' and rng.random() < 0.4:
-            out += rng.choice([b'// c\n', b'/* c */', b'/* a * b */', b'/**/', b'/* l1\nl2\r\nl3 */', b'//\r\n', b'/* "q" */', b'// "q\n',
+            out += rng.choice([b'// c\r', b'//\r', b'// c\n', b'/* c */', b'/* a * b */', b'/**/', b'/* l1\nl2\r\nl3 */', b'//\r\n', b'/* "q" */', b'// "q\n',
                                b'/***/', b'/* **/', b'/*/ */', b'// /* \n', b'/* // */', b'/ /', b'/* x'])
     return bytes(out)
 
@@ -354,6 +354,32 @@ class C15(Check):
             i += size
         return res, crashes
 
+    def _deep(self, f, cases, tag):
+        """the extracted list functions (app, map, cstr) are not tail recursive: texts of some 100 KB .. 1 MB (toString of a tree
+        nested 1000 deep, 70000 line breaks) need more than the default 8 MB stack; raised for the model/spec runs only"""
+        import resource
+        soft, hard = resource.getrlimit(resource.RLIMIT_STACK)
+        want = 4 << 30
+        if hard != resource.RLIM_INFINITY:
+            want = min(want, hard)
+        try:
+            resource.setrlimit(resource.RLIMIT_STACK, (want, hard))
+        except (ValueError, OSError):
+            pass
+        try:
+            return f(self, cases, tag)
+        finally:
+            try:
+                resource.setrlimit(resource.RLIMIT_STACK, (soft, hard))
+            except (ValueError, OSError):
+                pass
+
+    def run_model(self, cases, tag='model'):
+        return self._deep(Check.run_model, cases, tag)
+
+    def run_spec(self, cases, tag='spec'):
+        return self._deep(Check.run_spec, cases, tag)
+
     def nontrivial(self, case, obs):
         for l in case:
             t = l.split(' ')
@@ -361,7 +387,7 @@ class C15(Check):
                 b = bytes.fromhex(t[1])
                 if len(b) >= 3 and any(c in b for c in b'"\\/[{'):
                     return True
-            if t[0] == 'rt' and (t[1].count(',') >= 1 or t[1][0] in 'uUA' or any(x in t[1] for x in ('22', '5c', '0a', '0d'))):
+            if t[0] in ('rt', 'rtx') and (t[1].count(',') >= 1 or t[1][0] in 'uUA' or any(x in t[1] for x in ('22', '5c', '0a', '0d'))):
                 return True
             if t[0] in ('parse2', 'into', 'rtinto', 'sparse') and len(l) >= 20:
                 return True
@@ -406,6 +432,8 @@ class C15(Check):
         if kind == 'xscan':
             return ('xscan: libc sscanf("%%x") through String::scanf does not behave as the reference function JsonModel.scanf_hex: '
                     'model `%s`, implementation `%s`' % (exp[:100], got[:100]))
+        if kind == 'rtx':
+            kind = 'rt'
         if kind == 'rt' and exp.startswith('? |'):
             return ('rt (extension beyond the property\'s class: unsigned integers, arrays): toString then parse does not give the tree the theorem '
                     'ext_parse_toString_readback names (arrays as lists, unsigned as int/int64, 2^63 and above saturated): expected `%s` got `%s`' % (exp[:200], got[:300]))
@@ -547,7 +575,8 @@ class C15(Check):
                 d = mutate(rng, d)
             cases.append(['strip ' + hexs(d)])
         for d in [b'a/* x * y */b', b'"x\\n//y" // c', b'"a\\\\" // c', b'"\\"" /*c*/ 1', b'/*', b'/* *', b'/', b'//', b'"\\', b'"/*', b'/*"*/"',
-                  b'a//b\r\nc', b'/*\r\n*/x', b'"a"/**/"b"', b'/**/', b'/***/x', b'/*/x*/y', b'x/"//"', b'"\\\\"//c\n"\\"//"']:
+                  b'a//b\r\nc', b'/*\r\n*/x', b'//x\ry', b'a//\r', b'/*a\rb*/', b'/*\r*/x', b'//\r\r\n', b'{ // note\r "a": 1 }', b'//a\r//b\rc', b'"//"//\r"',
+                  b'//\r/*\r*/\r', b'1 // x\r\r2', b'// \\\r"', b'/*//\r*/', b'//*/\r/*', b'"a"/**/"b"', b'/**/', b'/***/x', b'/*/x*/y', b'x/"//"', b'"\\\\"//c\n"\\"//"']:
             cases.append(['strip ' + hexs(d)])
         out.append(Stream('comments', cases))
         # 5. value trees through toString and back
@@ -570,6 +599,21 @@ class C15(Check):
             if d <= 200:
                 cases.append(['rt ' + 'L1,' * d + 'n'])
                 cases.append(['rt ' + 'M1,k61,' * d + 'i1'])
+        # the round trip has no depth bound in the text (and none in parse_toString_roundtrip): chains of lists, of maps and of both,
+        # just below / above 2^8 and up to the 1000 the text names for parse (toString's text grows with depth^2: 1 MB at 1000)
+        def chains(d):
+            return ['L1,' * d + 'i7', 'M1,k61,' * d + 's78', 'L1,M1,k6b,' * (d // 2) + ('L1,' if d % 2 else '') + 's22',
+                    'L2,n,' * (d - 1) + 'L1,I-9223372036854775808',            # the chain in the last place of a longer list
+                    'M2,k62,f,k61,' * (d - 1) + 'M1,k61,L0']
+        if thorough:
+            for d in [201, 255, 256, 257, 258, 300, 400, 500, 511, 512, 513, 700, 998, 999, 1000]:
+                for tr in chains(d):
+                    cases.append([('rt ' if d <= 400 else 'rtx ') + tr])        # rtx: judged by the spec only, the model is not run
+        else:
+            for tr in chains(257)[:3]:
+                cases.append(['rt ' + tr])
+            for tr in chains(300)[3:] + chains(500)[:3] + chains(1000)[:2] + chains(999)[2:3]:
+                cases.append(['rtx ' + tr])
         out.append(Stream('nesting', cases, note='arrays/objects nested up to depth 1000, closed and truncated'))
         out += self.streams_case_splits(thorough, rng, docs)
         out += self.streams_reuse(thorough, rng, docs)
@@ -599,8 +643,11 @@ class C15(Check):
             cases.append(['rt ' + enc(('A', [('u', k * 16777259 % (UINT32_MAX + 1)) for k in range(n)]))])
             cases.append(['rt ' + enc(('A', [('U', k * 72057594037927931 % (UINT64_MAX + 1)) for k in range(n)]))])
             cases.append(['rt ' + enc(('A', [('A', [gen_bytes(rng, 20)]) for k in range(n)]))])
-        for d in ([1, 2, 10, 100, 200] if not thorough else [1, 2, 10, 50, 100, 150, 200]):
+        for d in ([1, 2, 10, 100, 200, 257] if not thorough else [1, 2, 10, 50, 100, 150, 200, 255, 256, 257, 400]):
             cases.append(['rt ' + 'A1,' * d + 'u1'])
+        for d in ([500, 1000] if not thorough else [500, 512, 999, 1000]):                # judged by the spec only (see rtx)
+            cases.append(['rtx ' + 'A1,' * d + 'U18446744073709551615'])
+            cases.append(['rtx ' + 'A1,L1,' * (d // 2) + 'u7'])
         out = [Stream('extension-trees', cases, note='EXTENSION beyond the property\'s class: uint / uint64 at the boundaries (2^31, 2^32, 2^63, 2^64-1) and '
                                                      'Array<Variant> (empty, nested, 100+ items, depth 200) through toString and parse; the spec names the tree read back '
                                                      '(readback v: arrays as lists, unsigned as int / int64, 2^63.. saturated) and makes no claim about ==')]
@@ -690,6 +737,26 @@ class C15(Check):
                 cases.append(['rt s' + s.hex()])
                 if kind != 2:
                     cases.append(['rt L2,s%s,M1,k%s,i1' % (s.hex(), s[:n // 2].hex())])
+        # the sizes between the random trees (<= 20 bytes, keys <= 6) and the 4 KiB strings above, around 2^8 and 2^11:
+        # as value, as key, both; every byte escaped / arbitrary bytes / plain / multi-byte text
+        mids = [21, 63, 64, 65, 127, 128, 255, 256, 257, 511, 1000, 1023, 1024, 2047, 2048, 2049, 3000, 4094] if thorough else [21, 64, 255, 256, 257, 1000, 2047, 2048, 4094]
+        for n in mids:
+            for kind in range(4):
+                s = big(n, kind)[:n]
+                k = big(n, (kind + 1) % 4)[:n]
+                cases.append(['rt s' + s.hex()])
+                cases.append(['rt M1,k%s,n' % s.hex()])
+                cases.append(['rt L2,M2,k%s,s%s,k%s,s%s,s%s' % (k.hex(), s.hex(), s.hex(), k.hex(), (s + k).hex())])
+        for _ in range(400 if thorough else 60):                                        # random trees with strings and keys of 7..4094 bytes
+            def mid():
+                return gen_bytes(rng, rng.choice([30, 100, 300, 1000, 4094]))
+            m, seen = [], set()
+            for _ in range(rng.randrange(1, 4)):
+                k = mid()
+                if k not in seen:
+                    seen.add(k)
+                    m.append((k, rng.choice([mid(), [mid(), None], ('M', [(mid(), ('i', 1))])])))
+            cases.append(['rt ' + enc(('M', m))])
         for n in ([100, 101, 128, 257, 1000] if thorough else [100, 257]):
             cases.append(['rt ' + enc([('i', k) for k in range(n)])])
             cases.append(['rt ' + enc([gen_bytes(rng, 20) for k in range(n)])])
@@ -709,6 +776,25 @@ class C15(Check):
             cases.append(['strip ' + hexs(b'"' + s + b'\\"' + s + b'" /* ' + s)])
             cases.append(['strip ' + hexs(b'/*' + b'\n*' * (n // 2) + b'/x')])
             cases.append(['strip ' + hexs(s + b'/')])
+        # line and column counters beyond 2^15 / 2^16 (the code counts lines in an int and takes the column from a pointer difference):
+        # runs of LF, CR LF, CR outside and inside a string literal, then a syntax error in column 6 of the last line; a last line of
+        # 70000 bytes (blanks, a literal, many tokens); the same through a reused Parser and the static wrappers
+        for n in ([32767, 32768, 65535, 65536, 65537, 70000, 131072] if thorough else [32768, 65535, 65536, 70000]):
+            cases.append(['parse ' + hexs(b'\n' * n + b'     x')])
+            cases.append(['parse ' + hexs(b'[1,' + b'\r\n' * (n - 1) + b'2,\n     }')])
+            cases.append(['parse ' + hexs(b'\r' * n + b'[    x')])
+            cases.append(['parse ' + hexs(b'["' + b'\n' * n + b'"   : 1]')])
+            cases.append(['parse ' + hexs(b'[\n' + b' ' * n + b'x')])
+            cases.append(['parse ' + hexs(b'\n["' + b'a' * n + b'" 1]')])
+            cases.append(['parse ' + hexs(b'\n\n[' + (b'"' + b'b' * (n // 100 - 3) + b'",') * 100 + b'1 2]')])      # 200 tokens
+        n = 70000
+        cases.append(['parse2 0 %s %s' % (hexs(b'\n' * n + b'[]'), hexs(b'\n' * n + b'     x'))])
+        cases.append(['parse2 1 %s %s' % (hexs(b'\n' * n + b'     x'), hexs(b'\r\n' * n + b'[    x'))])
+        cases.append(['sparse c ' + hexs(b'\n' * n + b'     x')])
+        cases.append(['sparse s ' + hexs(b'\r\n' * n + b'[' + b' ' * n + b'x')])
+        cases.append(['sparse p ' + hexs(b'[' + b'\r' * n + b' ' * n + b'x')])
+        cases.append(['into L1,i0 ' + hexs(b'[' + b'\n' * n + b'     x')])
+        cases.append(['strip ' + hexs(b'/*' + b'\n' * n + b'*/x//' + b'y' * n + b'\r' + b'\r\n' * n + b'/')])
         for k in range(60 if thorough else 20):                                         # a 0 byte inside the String
             d = with_comments(rng, gen_doc(rng))
             at = rng.randrange(len(d) + 1)
@@ -784,12 +870,13 @@ class C15(Check):
         for n in range(0, (7 if thorough else 6) + 1):
             for tup in itertools.product(A3, repeat=n):
                 cases.append(['strip ' + hexs(bytes(tup))])
-        if thorough:
-            for tup in itertools.product(A3 + [0x0d], repeat=6):
+        for n in range(1, (6 if thorough else 5) + 1):                            # a lone CR / CR LF as the end of a line comment
+            for tup in itertools.product(A3 + [0x0d], repeat=n):
                 if 0x0d in tup:
                     cases.append(['strip ' + hexs(bytes(tup))])
         out.append(Stream('exhaustive-strip', cases, exhaustive=True,
-                          note='every byte string of length <= %d over { " \\ / * LF a }' % (7 if thorough else 6)))
+                          note='every byte string of length <= %d over { " \\ / * LF a } and of length <= %d over { " \\ / * LF CR a }' % (
+                              7 if thorough else 6, 6 if thorough else 5)))
         return out
 
 
